@@ -66,7 +66,7 @@ def _source_of(ident):
             return bytes.fromhex(ident[5:]).decode("utf-8", "replace")
         except ValueError:
             return None
-    if ident.startswith(("lit:", "gen:", "decl:", "tpl:")):
+    if ident.startswith(("lit:", "gen:", "decl:", "tpl:", "dfn:")):
         try:
             r = subprocess.run([_harness_exe(), "c04", "source", ident], capture_output=True, text=True, timeout=60)
         except Exception:
@@ -275,9 +275,19 @@ def _typed_int_template_arguments_only(src):
     return True
 
 
+PROTO_PARAMS_KEY = "decl-forms:emitted-prototype-carries-the-parameter-list-of-the-definition/"
+
+
 def finding_key(req, obs, detail):
     # key by the first differing line class / rejection message, not by the whole program
     import re
+    m = re.search(r"\[dfn: ([a-z-]+)\]", detail or "")
+    if m and req.startswith("C04.fix\t"):
+        # named on the SOURCE TEXT alone (harness/src/c04/declforms.rs classify): the emitted text is refused with `no matching
+        # function for call to F(n arguments)` where F's first declaration is a prototype with more default arguments than its
+        # definition and n lies between the two / with `'X' was not declared` on a prototype line where X is declared between
+        # a prototype and the definition whose default expressions name it
+        return PROTO_PARAMS_KEY + m.group(1)
     if req.startswith("C04.fix\ttpl:") and "[tpl: int32-template-argument-printed-bare]" in (detail or ""):
         # named by the generator's own record of argument kinds (harness/src/c04/tmpl.rs classify): the first differing
         # line lies in an instance every call of which was written with an Int32 argument
@@ -327,7 +337,7 @@ def finding_key(req, obs, detail):
 
 SPEC = {
     "id": "C04",
-    "gens": ["SlotTables", "FixpointTables", "PathLookup", "TemplateConst", "NameReserve", "RankTable", "TypingTables", "HlslGenTables", "HlslIntrinsicTables",
+    "gens": ["SlotTables", "FixpointTables", "PathLookup", "TemplateConst", "NameReserve", "ProtoParams", "RankTable", "TypingTables", "HlslGenTables", "HlslIntrinsicTables",
              "MetaTables", "CompileTables"] + LEG_GENS,
     "lean_modules": ["RsslVerif.Thm.C04"] + LEG_MODULES,
     "theorems": [T + n for n in [
@@ -349,14 +359,38 @@ SPEC = {
         "template_instance_reelab_stmt", "emitted_literal_kind_int32_witness", "mutant_discipline_loses_literal_kind",
         # generated names are reserved against locals (C15's model of NameMap::build, Lemmas.FixpointGenNames)
         "generated_names_reserved_as_modelled", "local_meets_only_kept_names", "generated_names_apart_from_locals",
-        "late_set_loses_generated_type_names"]] + LEG_THEOREMS,
+        "late_set_loses_generated_type_names",
+        # prototypes and definitions of one function: which declaration supplies the signature / the printed parameters
+        # (Model.FixpointProto)
+        "proto_params_as_modelled", "emitted_declarations_fixpoint", "emitted_calls_accepted_again", "emitted_call_iff",
+        "prototype_default_dropped_witness"]] + LEG_THEOREMS,
     "harness": "c04",
     "custom": custom,
     "nontrivial": nontrivial,
     "finding_key": finding_key,
     "shrink": shrink,
     "search": search,
-    "rule": "C04.fix tpl: function templates with value parameters (int / uint / bool, `typename T, T N`, two parameters) and type "
+    "rule": "C04.fix dfn: declaration forms of functions - 2..5 functions in the root / a namespace / a nested namespace (prototype "
+            "and definition in separate, reopened blocks), 1..4 parameters (int / uint / float / float2 / struct / array, out / "
+            "inout in front, other names on the prototype), form = definition only | prototype + definition | prototype twice + "
+            "definition | definition + later prototype | prototype + definition + prototype | (1 program in 40) a prototype that "
+            "is never defined; default arguments on trailing parameters with the count on the prototype and on the definition "
+            "chosen independently (none / both the same / both with different expressions / prototype only / definition only / "
+            "more on one side); default expressions = literals of every suffix, negative literals, constant expressions, casts, "
+            "constants declared in front of everything, calls, vector constructors and - definition side - a constant declared "
+            "BETWEEN prototype and definition; overload sets (1 in 3), calls in front of the definitions (forward declared) and "
+            "after them with every admissible number of omitted arguments, mutual recursion through a prototype, a struct whose "
+            "methods have defaults / call a method defined later / call a free function, a function template with a default "
+            "argument, and 2..6 snippets of exporter features no other stream writes (interpolation modifiers and precise on "
+            "parameters / members / locals, row_major / column_major / snorm / unorm / volatile, statement attributes, WaveSize / "
+            "outputtopology, SV_Depth* semantics, sizeof, enum-typed constants, infinities, 4-component swizzles, geometry "
+            "primitive parameters, 60 rarely used intrinsics); 3 programs in 5 use only pairings that keep every default a call "
+            "relies on (all fixpoints), the others any pairing; a failure is named on the SOURCE TEXT alone (declaration scanner "
+            "of harness/src/c04/declforms.rs, independent of compiler and model; works for text: reproducers): "
+            "prototype-default-dropped (refused call of F with n arguments, F's first declaration is a prototype with more "
+            "defaults than its definition, n between the two) and definition-default-printed-on-earlier-prototype (`'X' was not "
+            "declared` on a prototype line, X declared between a prototype and the definition whose defaults name it) are the two "
+            "known classes of one defect; any other failure is a violation. C04.fix tpl: function templates with value parameters (int / uint / bool, `typename T, T N`, two parameters) and type "
             "parameters deduced from literal arguments; bodies combine the parameter with untyped literals in int / uint / float "
             "contexts (initialisers, compound assignments, operands, loop bounds, ?:, case labels, overloaded-function and intrinsic "
             "arguments, unary operators, array sizes); arguments are unsuffixed / suffixed literals and literal expressions, bools "
@@ -465,7 +499,20 @@ SPEC = {
                   "local pass) to the re-extracted Gen.NameReserve; late_set_loses_generated_type_names: with the set created after "
                   "the loop (seeded mutant C04-5, buildLate - not the code) struct texture / enum pass and the locals texture_0 / "
                   "pass_0 are all printed texture_0 / pass_0 while a used function is still avoided (program in the corpus). What "
-                  "remains for kept names is the known capture class by-local. The legs' property theorems (C10 literals, C09 round trip, C15 "
+                  "remains for kept names is the known capture class by-local. (8) Prototypes and definitions of one function "
+                  "(Model.FixpointProto: the signature with the number of parameters without a default is registered by the FIRST "
+                  "declaration, parse_function; the exporter prints EVERY declaration, prototype or definition, from the parameter "
+                  "list of the definition, generate_function_inner; both pinned to the re-extracted Gen.ProtoParams by "
+                  "proto_params_as_modelled): emitted_declarations_fixpoint - for every list of declarations (any number of "
+                  "prototypes in front of, between and after the definition, any defaults on any of them) the printed list is "
+                  "printed as itself again, every printed declaration carries the definition's parameter list and the second "
+                  "compilation registers the definition's signature; emitted_calls_accepted_again - if the definition has at least "
+                  "as many defaults as the first declaration, every call the first compilation admits is admitted again; "
+                  "emitted_call_iff - in general the second compilation admits exactly the calls with enough arguments for the "
+                  "definition; prototype_default_dropped_witness - `float g(float a, float b = 2.0f); float g(float a, float b) "
+                  "{..}`: g(1.0f) admitted first, refused second (known finding, class key), and with the default on the "
+                  "definition only the emitted prototype carries the definition's expression (the sibling finding when that "
+                  "expression names something declared between the two). The legs' property theorems (C10 literals, C09 round trip, C15 "
                   "names) and their Gen tables are obligations of C04. Partial: structural statements, declarations, structs, "
                   "template instantiation itself (naming of instances, headers, loops / switch / array sizes in instance bodies), intrinsic calls and the text leg of trees with casts are not in a Lean composition theorem; they are "
                   "exercised by the whole-program fixpoint run and the re-elaboration stream.",
@@ -492,6 +539,13 @@ SPEC = {
         "section GeneratedNames; Gen.NameReserve (tools/gens/c04.py: block structure of NameMap::build read by brace matching on "
         "the comment-stripped source); the source-side simulation of harness/src/c04/names.rs (entity ids, source leaf names) is "
         "trusted for telling a generated name from a kept one when a failure is classified",
+        "Model/FixpointProto.lean (declarations of one function: sigNonDefault = first declaration, implParams = definition, "
+        "exportDecls = every declaration printed with the definition's parameters) - tied by proto_params_as_modelled "
+        "(tools/gens/c04.py ProtoParams: every statement of generate_function_inner that mentions the implementation / "
+        "only_declare, the two root-definition arms, the default_expr statements of generate_function_param and "
+        "parse_function_body, the id / signature statements of parse_function, the non_default_params statements of "
+        "parse_function_signature) and exercised by the C04.fix dfn stream through the property's own oracle; the source-side "
+        "declaration scanner (harness/src/c04/declforms.rs classify) is trusted for naming the two known classes only",
         "Model/FixpointNames.lean (scope table, walkInto / findInScope / find, the descriptor machine exec = symbol insertion of "
         "enter_namespace / insert_global / insert_function_in_scope / begin_struct / begin_enum / register_enum_value / register_typedef "
         "/ insert_variable, enumValueRefused = the checks of register_enum_value, exportInstrs = the program the second "
@@ -516,6 +570,13 @@ SPEC = {
         "the constant evaluator keeps the kind of a literal and of a negated literal (C02's evaluator model): assumed by "
         "secondRecordKind; 64-bit template arguments are outside the Scalar model (parse_literal refuses 64-bit literals)",
         "the print / parse round trip of exported trees that contain casts is assumed (ParsesBack): C09's model has no cast node",
+        "the declaration-form model (Model.FixpointProto) treats default expressions as opaque tokens and one function at a "
+        "time: WHERE an expression printed on a prototype is looked up (the sibling finding), overload sets, namespaces, "
+        "methods, templates with defaults, attributes / semantics of prototypes and every snippet of the `extras` pool of the "
+        "dfn stream (modifiers, statement / function attributes, semantics, sizeof, infinities, intrinsics) are covered by the "
+        "correspondence run and its oracle only; the dfn stream has no driver op (the model side of C04.fix answers "
+        "`unsupported`): the tie of Model.FixpointProto is the extractor, and the stream's classifier applies exactly the "
+        "condition of emitted_call_iff to the source text",
         "in the second generation no pipeline is selected (default bind group 0), as in the property's observation point",
     ],
 }
